@@ -1,9 +1,9 @@
 """C11: overwrite ring / blackbox keeps the newest records, intact."""
 from vplib import build, runner, report
-from checks import c07
+from checks import c07, c15
 
 PROP = "C11"
-STAGES = {"ring": c07.rbseq}
+STAGES = {"ring": c07.rbseq, "blackbox": c15.bbtool}
 
 
 def build_all():
@@ -18,6 +18,14 @@ def run(tier, seed, scale=1.0):
     v.add_result(res, "ring", exe)
     for h in res.hangs:
         v.add_violation("hang:rbseq-overwrite", h)
+    # blackbox part: log -> dump -> print, printed records must be an unbroken suffix ending with the last one
+    bexe = c15.bbtool()
+    nb = int((120 if tier == "quick" else 6000) * scale)
+    bres = runner.run_cases(bexe, seed, nb, args=["--mode", "roundtrip"], timeout=900)
+    v.add_result(bres, "blackbox", bexe)
+    for h in bres.hangs:
+        v.add_violation("hang:bbtool-roundtrip", h)
+    res.absorb(bres)
     cov = {
         "evaluations": res.evaluations,
         "distinct_nontrivial": len(res.distinct),
@@ -25,7 +33,9 @@ def run(tier, seed, scale=1.0):
                 "write/alloc+commit/read/peek+reclaim ops; every returned chunk must be an element of the model's "
                 "unread sequence, every skipped older one must be outside the newest suffix that fits S at 16 bytes "
                 "overhead per chunk; writes <= S must succeed. non-trivial = ring wrapped; distinct by (size class, "
-                "wrap, final offset mod 16)",
+                "wrap, final offset mod 16). blackbox part: blackbox of 1 KiB..256 KiB, 1-3 dumps per case after bursts of "
+                "1..1500 records; the printed records must be the newest logged ones, unbroken, ending with the very "
+                "last, at least as many as the size guarantees for maximal records",
         "samples": res.samples[:6],
         "monitor_counters": res.counters,
         "sanitizer_reports": res.sanitizer_reports,
@@ -39,6 +49,8 @@ def run(tier, seed, scale=1.0):
 
 def replay(rep):
     w = rep["witness"]
+    if w.get("stage") == "blackbox":
+        w = dict(w); w["args"] = ["--mode", "roundtrip"]
     exe = STAGES[w.get("stage", "ring")]()
     res = runner.run_cases(exe, w["seed"], 1, args=w.get("args", []), first=w["case"], workers=1)
     for x in res.violations:
